@@ -35,7 +35,12 @@ def recheck():
     subprocess.check_call(["git", "-C", "/repo", "worktree", "add", "--detach", "-q", wt, "HEAD"])
     subprocess.check_call(["go", "build", "-o", os.path.join(tmp, "wrverif"), "./cmd/wrverif"], cwd=os.path.join(VERIF, "checker"), env=ENV)
     try:
-        for d in sorted(os.listdir(os.path.join(VERIF, "seeded"))):
+        shard, nshards = 0, 1
+        if len(sys.argv) > 3:
+            shard, nshards = int(sys.argv[2]), int(sys.argv[3])
+        for k, d in enumerate(sorted(os.listdir(os.path.join(VERIF, "seeded")))):
+            if k % nshards != shard:
+                continue
             mp = os.path.join(VERIF, "seeded", d, "meta.json")
             if not os.path.exists(mp):
                 continue
@@ -46,7 +51,7 @@ def recheck():
                 a = run(["git", "apply", "--3way", "--whitespace=nowarn", patch], cwd=wt)
             if a.returncode != 0:
                 print(d, "PATCH-DOES-NOT-APPLY (meta kept)")
-                run(["git", "checkout", "--", "."], cwd=wt)
+                run(["git", "reset", "-q", "--hard"], cwd=wt)
                 continue
             r = run([os.path.join(tmp, "wrverif"), "-repo", wt, "-verif", vdir, "-all"])
             caught = {}
@@ -55,7 +60,7 @@ def recheck():
                 if m:
                     caught.setdefault(m.group(1), set()).add(m.group(1) + "." + m.group(2))
             caught = {k: sorted(v) for k, v in caught.items()}
-            run(["git", "checkout", "--", "."], cwd=wt)
+            run(["git", "reset", "-q", "--hard"], cwd=wt)
             run(["git", "clean", "-fdq"], cwd=wt)
             meta["caught_by"] = caught
             meta["caught"] = meta["property"] in caught
